@@ -308,7 +308,7 @@ func c14ExitCode(c *Check, a *Anchors) {
 		for p := pm[as]; p != nil; p = pm[p] {
 			if ifs, ok := p.(*ast.IfStmt); ok && within(as, ifs.Body) {
 				ast.Inspect(ifs.Cond, func(m ast.Node) bool {
-					if be, ok := m.(*ast.BinaryExpr); ok && be.Op == token.GTR && exprStr(be.Y) == "0" {
+					if be, ok := m.(*ast.BinaryExpr); ok && be.Op == token.GTR && constIs(rinfo, be.Y, "0") {
 						guarded = true
 					}
 					return true
